@@ -1,10 +1,13 @@
 #!/bin/bash
-# development aid: tryseed.sh <patch.diff> <ID> [vcheck args]  - apply a seeded change to /repo, run the check, undo it
-# (the evidence file of the unchanged tree is preserved)
-p=$1; id=$2; shift 2
-git -C /repo apply "$p" || { echo "patch does not apply"; exit 3; }
-cd /verif; cp evidence/$id.json /tmp/evidence_$id.bak 2>/dev/null
-./vcheck $id "$@"; rc=$?
-git -C /repo checkout -- .
-cp /tmp/evidence_$id.bak evidence/$id.json 2>/dev/null; rm -f /tmp/evidence_$id.bak
+# development aid: tryseed.sh <patch.diff> <ID> [vcheck args]
+# applies a seeded change in a scratch worktree of /repo (HEAD), runs the check against that worktree (VERIF_REPO) and removes it;
+# /repo itself is not touched and the evidence file of the unchanged tree is preserved
+p=$(realpath "$1"); id=$2; shift 2
+wt=/tmp/wt/seedtest.$$
+git -C /repo worktree add --detach "$wt" HEAD >/dev/null 2>&1 || { echo "worktree failed"; exit 3; }
+git -C "$wt" apply "$p" || { echo "patch does not apply"; git -C /repo worktree remove --force "$wt"; exit 3; }
+cd /verif; cp evidence/$id.json /tmp/evidence_$id.$$.bak 2>/dev/null
+VERIF_REPO="$wt" ./vcheck $id "$@"; rc=$?
+cp /tmp/evidence_$id.$$.bak evidence/$id.json 2>/dev/null; rm -f /tmp/evidence_$id.$$.bak
+git -C /repo worktree remove --force "$wt"
 echo "exit=$rc"
